@@ -98,14 +98,15 @@ class Undecided(Exception):
 # ------------------------------------------------------------------------------------------------
 # Kani
 # ------------------------------------------------------------------------------------------------
-CHECK_RE = re.compile(r"^Check (\d+): (.*)\n\s+- Status: (\S+)\n\s+- Description: \"(.*)\"\n\s+- Location: (.*)$",
+# (a description is the text of the assertion and may span several lines)
+CHECK_RE = re.compile(r"^Check (\d+): (.*)\n\s+- Status: (\S+)\n\s+- Description: \"((?:.|\n)*?)\"\n\s+- Location: (.*)$",
                       re.M)
 
 
 def parse_kani(out):
     checks = []
     for m in CHECK_RE.finditer(out):
-        checks.append({"name": m.group(2), "status": m.group(3), "desc": m.group(4), "loc": m.group(5).strip()})
+        checks.append({"name": m.group(2), "status": m.group(3), "desc": " ".join(m.group(4).split()), "loc": m.group(5).strip()})
     verdict = None
     if "VERIFICATION:- SUCCESSFUL" in out:
         verdict = "SUCCESSFUL"
